@@ -122,6 +122,191 @@ impl<K: Ord + Hash + Eq, V> DashMap<K, V> {
     pub fn iter(&self) -> Iter<'_, K, V> {
         Iter { map: self, shard: 0, cur: None }
     }
+
+    pub fn with_capacity(_n: usize) -> Self {
+        Self::new()
+    }
+
+    pub fn remove_if<Q>(&self, key: &Q, f: impl FnOnce(&K, &V) -> bool) -> Option<(K, V)>
+    where
+        K: std::borrow::Borrow<Q>,
+        Q: Ord + Hash + ?Sized,
+    {
+        let mut g = self.shards[self.shard_of(key)].write().unwrap_or_else(|e| e.into_inner());
+        let hit = g.get_key_value(key).map_or(false, |(k, v)| f(k, v));
+        if hit {
+            g.remove_entry(key)
+        } else {
+            None
+        }
+    }
+
+    pub fn alter<Q>(&self, key: &Q, f: impl FnOnce(&K, V) -> V)
+    where
+        K: std::borrow::Borrow<Q> + Clone,
+        Q: Ord + Hash + ?Sized,
+    {
+        let mut g = self.shards[self.shard_of(key)].write().unwrap_or_else(|e| e.into_inner());
+        if let Some((k, v)) = g.remove_entry(key) {
+            let nv = f(&k, v);
+            g.insert(k, nv);
+        }
+    }
+
+    pub fn iter_mut(&self) -> IterMut<'_, K, V> {
+        IterMut { map: self, shard: 0, cur: None }
+    }
+
+    pub fn entry(&self, key: K) -> Entry<'_, K, V> {
+        let g = self.shards[self.shard_of(&key)].write().unwrap_or_else(|e| e.into_inner());
+        if g.contains_key(&key) {
+            Entry::Occupied(OccupiedEntry { g, key })
+        } else {
+            Entry::Vacant(VacantEntry { g, key })
+        }
+    }
+}
+
+pub enum Entry<'a, K, V> {
+    Occupied(OccupiedEntry<'a, K, V>),
+    Vacant(VacantEntry<'a, K, V>),
+}
+
+pub struct OccupiedEntry<'a, K, V> {
+    g: RwLockWriteGuard<'a, BTreeMap<K, V>>,
+    key: K,
+}
+
+pub struct VacantEntry<'a, K, V> {
+    g: RwLockWriteGuard<'a, BTreeMap<K, V>>,
+    key: K,
+}
+
+impl<'a, K: Ord + Hash + Eq + Clone, V> Entry<'a, K, V> {
+    pub fn key(&self) -> &K {
+        match self {
+            Entry::Occupied(e) => &e.key,
+            Entry::Vacant(e) => &e.key,
+        }
+    }
+    pub fn and_modify(mut self, f: impl FnOnce(&mut V)) -> Self {
+        if let Entry::Occupied(e) = &mut self {
+            if let Some(v) = e.g.get_mut(&e.key) {
+                f(v);
+            }
+        }
+        self
+    }
+    pub fn or_insert(self, value: V) -> RefMut<'a, K, V> {
+        self.or_insert_with(|| value)
+    }
+    pub fn or_default(self) -> RefMut<'a, K, V>
+    where
+        V: Default,
+    {
+        self.or_insert_with(V::default)
+    }
+    pub fn or_insert_with(self, f: impl FnOnce() -> V) -> RefMut<'a, K, V> {
+        match self {
+            Entry::Occupied(e) => e.into_ref(),
+            Entry::Vacant(e) => e.insert(f()),
+        }
+    }
+}
+
+impl<'a, K: Ord + Hash + Eq + Clone, V> OccupiedEntry<'a, K, V> {
+    pub fn key(&self) -> &K {
+        &self.key
+    }
+    pub fn get(&self) -> &V {
+        self.g.get(&self.key).expect("occupied")
+    }
+    pub fn get_mut(&mut self) -> &mut V {
+        self.g.get_mut(&self.key).expect("occupied")
+    }
+    pub fn insert(&mut self, v: V) -> V {
+        self.g.insert(self.key.clone(), v).expect("occupied")
+    }
+    pub fn remove(mut self) -> V {
+        self.g.remove(&self.key).expect("occupied")
+    }
+    pub fn remove_entry(mut self) -> (K, V) {
+        self.g.remove_entry(&self.key).expect("occupied")
+    }
+    pub fn into_ref(mut self) -> RefMut<'a, K, V> {
+        let k = self.g.get_key_value(&self.key).map(|(k, _)| k as *const K).expect("occupied");
+        let v = self.g.get_mut(&self.key).map(|v| v as *mut V).expect("occupied");
+        RefMut { _g: self.g, k, v }
+    }
+}
+
+impl<'a, K: Ord + Hash + Eq + Clone, V> VacantEntry<'a, K, V> {
+    pub fn key(&self) -> &K {
+        &self.key
+    }
+    pub fn insert(mut self, v: V) -> RefMut<'a, K, V> {
+        self.g.insert(self.key.clone(), v);
+        let k = self.g.get_key_value(&self.key).map(|(k, _)| k as *const K).expect("inserted");
+        let v = self.g.get_mut(&self.key).map(|v| v as *mut V).expect("inserted");
+        RefMut { _g: self.g, k, v }
+    }
+}
+
+type HeldMut<'a, K, V> = Rc<std::cell::RefCell<RwLockWriteGuard<'a, BTreeMap<K, V>>>>;
+
+pub struct IterMut<'a, K, V> {
+    map: &'a DashMap<K, V>,
+    shard: usize,
+    cur: Option<(HeldMut<'a, K, V>, std::vec::IntoIter<(*const K, *mut V)>)>,
+}
+
+pub struct RefMutMulti<'a, K, V> {
+    _g: HeldMut<'a, K, V>,
+    k: *const K,
+    v: *mut V,
+}
+impl<K, V> RefMutMulti<'_, K, V> {
+    pub fn key(&self) -> &K {
+        unsafe { &*self.k }
+    }
+    pub fn value(&self) -> &V {
+        unsafe { &*self.v }
+    }
+    pub fn value_mut(&mut self) -> &mut V {
+        unsafe { &mut *self.v }
+    }
+}
+impl<K, V> Deref for RefMutMulti<'_, K, V> {
+    type Target = V;
+    fn deref(&self) -> &V {
+        self.value()
+    }
+}
+impl<K, V> DerefMut for RefMutMulti<'_, K, V> {
+    fn deref_mut(&mut self) -> &mut V {
+        self.value_mut()
+    }
+}
+
+impl<'a, K: Ord + Hash + Eq, V> Iterator for IterMut<'a, K, V> {
+    type Item = RefMutMulti<'a, K, V>;
+    fn next(&mut self) -> Option<Self::Item> {
+        loop {
+            if let Some((g, it)) = &mut self.cur {
+                if let Some((k, v)) = it.next() {
+                    return Some(RefMutMulti { _g: Rc::clone(g), k, v });
+                }
+                self.cur = None;
+            }
+            if self.shard >= self.map.n() {
+                return None;
+            }
+            let mut g = self.map.shards[self.shard].write().unwrap_or_else(|e| e.into_inner());
+            self.shard += 1;
+            let items: Vec<(*const K, *mut V)> = g.iter_mut().map(|(k, v)| (k as *const K, v as *mut V)).collect();
+            self.cur = Some((Rc::new(std::cell::RefCell::new(g)), items.into_iter()));
+        }
+    }
 }
 
 pub struct Ref<'a, K, V> {
